@@ -345,9 +345,11 @@ def judge_restart(case):
     texts = rng.sample(pool, 3)
     first = [texts[0], texts[1], texts[0]] if rng.random() < 0.6 else [texts[0], texts[1], texts[2], texts[1], texts[0]]
     second = [rng.choice([texts[2] + " z", "vp_argv last"])]
-    res = {"typed": [first, second]}
+    # (with HISTORY_DELETE_DUPS=0 nothing is purged at start-up: every row stays, in the order typed)
+    keep_dups = rng.random() < 0.4
+    res = {"typed": [first, second], "HISTORY_DELETE_DUPS": "0" if keep_dups else None}
     for part in (first, second):
-        s = ptydrv.PtySession(sb)
+        s = ptydrv.PtySession(sb, env_extra={"HISTORY_DELETE_DUPS": "0"} if keep_dups else None)
         try:
             ok, _ = s.wait_prompt(15)
             if not ok:
@@ -365,6 +367,8 @@ def judge_restart(case):
     last_order = [t for i, t in enumerate(allsub) if t not in allsub[i + 1:]]
     got = [r[1] for r in rows(db)]
     res["rows_in_listing_order"], res["submitted"] = got, allsub
+    if keep_dups and got != allsub:
+        return ("violated", "C18:interactive-restart:rows-purged-although-duplicates-are-to-be-kept", res)
     if got not in (allsub, last_order):
         if sorted(set(got)) != sorted(set(allsub)):
             return ("violated", "C18:interactive-restart:a-submitted-text-is-gone-or-changed", res)
